@@ -260,6 +260,42 @@ class SourceFile:
             j += 1
         return Cut(self.text[s:j + 1], self.rel, line_of(self.text, s), desc or ("stmt /%s/" % start_re))
 
+    def if_chain_end(self, idx):
+        """idx at an `if` keyword: offset just past the end of the whole if / else-if / else statement."""
+        m = self.masked
+        if not m.startswith("if", idx):
+            raise Undecided("if_chain_end: no `if` at offset %d of %s" % (idx, self.rel))
+        j = idx
+        while True:
+            depth = 0
+            k = j
+            ob = None
+            while k < len(m):
+                ch = m[k]
+                if ch in "([":
+                    depth += 1
+                elif ch in ")]":
+                    depth -= 1
+                elif ch == "{" and depth == 0:
+                    ob = k
+                    break
+                k += 1
+            if ob is None:
+                raise Undecided("if_chain_end: no block in %s" % self.rel)
+            cb = match_brace(m, ob)
+            r = re.match(r"\s*else\b\s*", m[cb + 1:])
+            if not r:
+                return cb + 1
+            j = cb + 1 + r.end()
+            if m.startswith("if", j):
+                continue
+            ob2 = m.find("{", j)
+            return match_brace(m, ob2) + 1
+
+    def cut_span(self, a, b, desc):
+        a0 = line_start(self.text, a)
+        return Cut(self.text[a0:b], self.rel, line_of(self.text, a0), desc)
+
     def braced_after(self, start_re, lo=0, hi=None, nth=1, desc=None):
         """The statement starting at the line matching start_re through the brace
         block that the match opens (first `{` after the match start)."""
